@@ -31,9 +31,11 @@ def requests():
     return [
         Request(LM, fn=["stir::LmToProjData::process_data", "stir::LmToProjData::get_bin_from_event", "stir::LmToProjData::do_post_normalisation"], files=["/repo/src/listmode_buildblock/LmToProjData.cxx"]),
         Request(LL, fn=["stir::LM_distributable_computation"], files=[".*/recon_buildblock/distributable\\.txx"]),
+
         Request(LL, fn=["stir::PoissonLogLikelihoodWithLinearModelForMeanAndListModeDataWithProjMatrixByBin::read_listmode_batch"]),
         Request(LL, fn=["stir::PoissonLogLikelihoodWithLinearModelForMeanAndListModeData.*::.*"], files=["/repo/src/recon_buildblock/PoissonLogLikelihoodWithLinearModelForMeanAndListModeData.*\\.cxx", "/repo/src/include/stir/recon_buildblock/PoissonLogLikelihoodWithLinearModelForMeanAndListModeData.*\\.h"]),
         Request("src/recon_buildblock/PoissonLogLikelihoodWithLinearModelForMeanAndListModeData.cxx", fn=["stir::PoissonLogLikelihoodWithLinearModelForMeanAndListModeData::.*"], files=["/repo/src/recon_buildblock/PoissonLogLikelihoodWithLinearModelForMeanAndListModeData\\.cxx", "/repo/src/include/stir/recon_buildblock/PoissonLogLikelihoodWithLinearModelForMeanAndListModeData\\.h"]),
+        Request(LM, fn=["stir::LmToProjData::.*"], files=["/repo/src/listmode_buildblock/LmToProjData.cxx"]),
     ]
 
 
@@ -522,6 +524,92 @@ def rule_l_undecoded_event_is_marked_rejected(ctx, f):
     return 1
 
 
+def rule_m_setup_follows_settings(ctx, fns):
+    """LmToProjData::set_up() DERIVES members from settings (the delayed increment from store_prompts/store_delayeds, the time-frame
+    mode from the number of events and the frame file, the default frame).  process_data() refuses to run unless the set-up flag is
+    on.  So (1) every public setter of a member that influences (data or control dependence) a member assignment of set_up() clears
+    the flag - else the derived value of the previous setting is used (F70: delayeds still subtracted after set_store_delayeds(false));
+    (2) a bool member that set_up() sets to `true` under a condition on settings is also assigned on the other outcome - else it is
+    sticky across set_up() calls (F70: the event cut-off was ignored from the second run on)."""
+    from engine.tree import written_lvalues
+
+    RULE = "C14.m-set-up-follows-settings"
+    CLS = "stir::LmToProjData"
+    by = {}
+    for f in fns:
+        if f.body is not None and f.cls == CLS:
+            by.setdefault((f.short, len(f.params), f.sig), f)
+    su = [f for (sh, _n, _s), f in by.items() if sh == "set_up"]
+    if not su:
+        ctx.fail_broken("C14.m: LmToProjData::set_up not found")
+        return 0
+    su = su[0]
+    FLAG = "_already_setup"
+
+    def this_fields(n):
+        return {m.get("n") for m in n.walk() if m.k == "MemberExpr" and m.get("mk") == "field" and m.c and m.c[0].strip().k == "CXXThisExpr"}
+
+    # member assignments of set_up and what influences them
+    influences = {}  # input field -> set of derived fields
+    assigns = []
+    for m in su.walk():
+        if m.k in ("BinaryOperator", "CXXOperatorCallExpr") and m.op == "=" and len(m.c) >= 2:
+            lhs = key(m.c[0].strip())
+            if not lhs.startswith("this.") or lhs == "this." + FLAG:
+                continue
+            derived = lhs[5:].split(".")[0].split("[")[0]
+            src = this_fields(m.c[1])
+            for a in m.ancestors():
+                if a.k == "IfStmt" and a.c:
+                    src |= this_fields(a.c[0])
+            assigns.append((m, derived))
+            for x in src:
+                if x != derived:
+                    influences.setdefault(x, set()).add(derived)
+    # an in-place default (`if (x == -1) x = ...`) makes x its own input: the setter of x decides
+    for m, derived in assigns:
+        for a in m.ancestors():
+            if a.k == "IfStmt" and a.c and derived in this_fields(a.c[0]):
+                influences.setdefault(derived, set()).add(derived)
+    ctx.stats["set_up_derives"] = {k_: sorted(v) for k_, v in sorted(influences.items())}
+    n = 0
+    for (sh, np_, _sig), f in sorted(by.items(), key=lambda kv: (kv[0][0], kv[0][1], kv[0][2])):
+        if not sh.startswith("set_") or sh in ("set_up", "set_defaults") or np_ < 1 or f.d.get("access", 0) != 0 or not f.cfg_raw:
+            continue
+        ws = set()
+        for m in f.walk():
+            for e in written_lvalues(m):
+                r = root_of_lvalue(e)
+                if r.startswith("this.") and r[5:] in influences:
+                    ws.add(r[5:])
+        if not ws:
+            continue
+        cfg = CFG(f)
+        clr = {m.i for m in f.walk() if m.k == "BinaryOperator" and m.op == "=" and key(m.c[0].strip()) == "this." + FLAG and key(m.c[1].strip()) == "false" and m.i in cfg.pos}
+        # or it delegates to another setter of the class that clears it
+        deleg = {c.i for c in f.calls() if c.i in cfg.pos and (c.callee or "").startswith(CLS + "::set_") and c.call_object() is not None and c.call_object().strip().k == "CXXThisExpr"}
+        stop = clr | deleg
+        ok = bool(stop) and cfg.paths_avoiding([(cfg.entry, -1)], lambda x, s_=stop: x.i in s_) is None
+        ctx.ob(RULE, f.qn + "(" + f.sig[:30] + ")", "clears-flag<-" + ",".join(sorted(ws)), ok, f.where(), "changes %s and clears the set-up flag: process_data() asks for a new set_up()" % ", ".join(sorted(ws)) if ok else "set_up() derives %s from `%s`, which this setter changes without clearing `%s`: process_data() keeps using what was derived from the previous value" % (", ".join(sorted(set().union(*[influences[w] for w in ws]))), ", ".join(sorted(ws)), FLAG))
+        n += 1
+    # (2) sticky bool members
+    cfg = CFG(su)
+    done = set()
+    for m, derived in assigns:
+        if key(m.c[1].strip()) != "true" or derived in done or m.i not in cfg.pos:
+            continue
+        conds = [a for a in m.ancestors() if a.k == "IfStmt"]
+        if not conds:
+            continue
+        done.add(derived)
+        alls = {x.i for x, d2 in assigns if d2 == derived and x.i in cfg.pos}
+        rets = [r for r in su.walk() if r.k == "ReturnStmt" and r.i in cfg.pos]
+        ok = cfg.must_pass_from_entry(rets, lambda x, s_=alls: x.i in s_) is None
+        ctx.ob(RULE, su.qn, "assigned-on-every-path:" + derived, ok, m.where(), "`%s` is assigned on every path of set_up(), whatever the settings" % derived if ok else "`%s` is only ever switched on by set_up() (under a condition on the settings): once on it stays on for later set_up() calls with other settings" % derived)
+        n += 1
+    return n
+
+
 def _subscript_chain(n):
     idx = []
     n = n.strip()
@@ -582,6 +670,8 @@ def run(ctx):
         rule_j_batches_continue_with_the_clock(ctx, rb[0])
         ctx.require_count("C14.j-batches-continue-with-the-clock", 1)
     rule_k_cache_follows_the_model(ctx, us[3].functions + us[4].functions)
+    rule_m_setup_follows_settings(ctx, us[5].functions)
+    ctx.require_count("C14.m-set-up-follows-settings", 7)
     ctx.require_count("C14.k-event-cache-follows-the-model", 1)
     ctx.require_count("C14.a-batches-partition", 6)
     ctx.require_count("C14.c-store-bounded", 5)
